@@ -1497,6 +1497,12 @@ CORPUS = [
     {"prog": "src", "term": "sel", "sel": ["e", "b"], "source": "read_parquet"},
     {"prog": "src_filter", "term": "sel", "sel": ["c"], "source": "read_parquet"},
     {"prog": "src", "term": "sel", "sel": ["e", "b"], "source": "from_map"},
+    # a projectable from_map source asked for no column at all (D84)
+    {"prog": "src", "term": "sel", "sel": [], "source": "from_map"},
+    {"prog": "src", "term": "sel", "sel": [], "source": "pandas"},
+    {"prog": "src", "term": "sel", "sel": [], "source": "read_parquet"},
+    {"prog": "concat0_diff", "term": "sel", "sel": ["d"], "source": "from_map"},
+    {"prog": "concat0_diff", "term": "sel", "sel": ["a"], "source": "from_map"},
 ]
 
 
